@@ -57,29 +57,29 @@ theorem idsB_for (l : Leaf) (b : Blk) (ys : Bool) (y : Leaf) (r : Blk) :
 /-! ### the pending list -/
 
 theorem mem_discharge {scope P : List Nat} {z : Nat} :
-    z ∈ discharge true scope P ↔ z ∈ P ∧ z ∉ scope := by
+    z ∈ discharge Fix.all scope P ↔ z ∈ P ∧ z ∉ scope := by
   simp [discharge]
 
-theorem visit_adds {all : List Leaf} {cx : Ctx} {o : Leaf} {P : List Nat} {z : Nat}
-    (h : z ∈ adds all cx o) : z ∈ (visit true all cx o P).2 := by
+theorem visit_adds {all : List Leaf} {rt : Nat → Nat} {cx : Ctx} {o : Leaf} {P : List Nat} {z : Nat}
+    (h : z ∈ adds Fix.all all rt cx o) : z ∈ (visit Fix.all all rt cx o P).2 := by
   simp only [visit, List.mem_append]; exact Or.inr h
 
-theorem visit_keep {all : List Leaf} {cx : Ctx} {o : Leaf} {P : List Nat} {z : Nat}
-    (h : z ∈ P) (hs : z ∉ cx.scope) : z ∈ (visit true all cx o P).2 := by
+theorem visit_keep {all : List Leaf} {rt : Nat → Nat} {cx : Ctx} {o : Leaf} {P : List Nat} {z : Nat}
+    (h : z ∈ P) (hs : z ∉ cx.scope) : z ∈ (visit Fix.all all rt cx o P).2 := by
   simp only [visit, List.mem_append]
   left
   split
   · exact mem_discharge.mpr ⟨h, hs⟩
   · exact h
 
-theorem visit_keep_nohit {all : List Leaf} {cx : Ctx} {o : Leaf} {P : List Nat} {z : Nat}
-    (h : z ∈ P) (hn : (visit true all cx o P).1 = false) : z ∈ (visit true all cx o P).2 := by
+theorem visit_keep_nohit {all : List Leaf} {rt : Nat → Nat} {cx : Ctx} {o : Leaf} {P : List Nat} {z : Nat}
+    (h : z ∈ P) (hn : (visit Fix.all all rt cx o P).1 = false) : z ∈ (visit Fix.all all rt cx o P).2 := by
   simp only [visit] at hn
   simp only [visit, hn, List.mem_append]
   exact Or.inl h
 
-theorem visit_hit_iff {all : List Leaf} {cx : Ctx} {o : Leaf} {P : List Nat} :
-    (visit true all cx o P).1 = true ↔ o.id ∈ P := by
+theorem visit_hit_iff {all : List Leaf} {rt : Nat → Nat} {cx : Ctx} {o : Leaf} {P : List Nat} :
+    (visit Fix.all all rt cx o P).1 = true ↔ o.id ∈ P := by
   simp [visit]
 
 theorem run_withSync {h : Bool} {b : Blk} {t : List Ev} :
@@ -100,8 +100,8 @@ theorem star_mem {S : List Ev → Prop} {Q : Ev → Prop} {t : List Ev} (hs : St
     · exact h _ ha e h1
     · exact ih e h1
 
-theorem run_mem (fx : Bool) (all : List Leaf) : ∀ (b : Blk) (cx : Ctx) (P : List Nat) (t : List Ev) (z : Leaf),
-    Run (walkB fx all cx b P).1 t → Ev.op z ∈ t → z ∈ leavesB b := by
+theorem run_mem (fx : Fix) (all : List Leaf) (rt : Nat → Nat) : ∀ (b : Blk) (cx : Ctx) (P : List Nat) (t : List Ev) (z : Leaf),
+    Run (walkB fx all rt cx b P).1 t → Ev.op z ∈ t → z ∈ leavesB b := by
   intro b
   induction b with
   | nil =>
@@ -170,8 +170,8 @@ theorem run_mem (fx : Bool) (all : List Leaf) : ∀ (b : Blk) (cx : Ctx) (P : Li
 
 /-! ### Lemma B: a pending operation outside the block survives the walk of the block -/
 
-theorem keep_out (all : List Leaf) : ∀ (b : Blk) (cx : Ctx) (P : List Nat) (z : Nat),
-    z ∈ P → z ∉ cx.scope → z ∉ idsB b → z ∈ (walkB true all cx b P).2 := by
+theorem keep_out (all : List Leaf) (rt : Nat → Nat) : ∀ (b : Blk) (cx : Ctx) (P : List Nat) (z : Nat),
+    z ∈ P → z ∉ cx.scope → z ∉ idsB b → z ∈ (walkB Fix.all all rt cx b P).2 := by
   intro b
   induction b with
   | nil => intro cx P z h _ _; simpa [walkB] using h
@@ -198,12 +198,12 @@ theorem keep_out (all : List Leaf) : ∀ (b : Blk) (cx : Ctx) (P : List Nat) (z 
     rw [idsB_for] at hb
     simp only [List.mem_cons, List.mem_append, not_or] at hb
     obtain ⟨_, hbb, hby, hbr⟩ := hb
-    have hsc : z ∉ (bodyCtx b y).scope := by
+    have hsc : z ∉ (bodyCtx cx b y).scope := by
       simp only [bodyCtx, List.mem_append, List.mem_singleton, not_or]; exact ⟨hbb, hby⟩
-    have h1 := ihb (bodyCtx b y) _ _ (visit_keep (o := l) (all := all) h hs) hsc hbb
-    have h2 : z ∈ (if ys then discharge true (bodyCtx b y).scope
-        (walkB true all (bodyCtx b y) b (visit true all cx l P).2).2
-        else (walkB true all (bodyCtx b y) b (visit true all cx l P).2).2) := by
+    have h1 := ihb (bodyCtx cx b y) _ _ (visit_keep (o := l) (all := all) (rt := rt) h hs) hsc hbb
+    have h2 : z ∈ (if ys then discharge Fix.all (bodyCtx cx b y).scope
+        (walkB Fix.all all rt (bodyCtx cx b y) b (visit Fix.all all rt cx l P).2).2
+        else (walkB Fix.all all rt (bodyCtx cx b y) b (visit Fix.all all rt cx l P).2).2) := by
       split
       · exact mem_discharge.mpr ⟨h1, hsc⟩
       · exact h1
@@ -212,9 +212,9 @@ theorem keep_out (all : List Leaf) : ∀ (b : Blk) (cx : Ctx) (P : List Nat) (z 
 /-! ### Lemma A': a pending operation that is not part of the block either survives or every path through
 the block meets a barrier -/
 
-theorem keep_or_sync (all : List Leaf) : ∀ (b : Blk) (cx : Ctx) (P : List Nat) (t : List Ev) (z : Nat),
-    Run (walkB true all cx b P).1 t → z ∈ P → z ∉ idsB b →
-    z ∈ (walkB true all cx b P).2 ∨ Ev.sync ∈ t := by
+theorem keep_or_sync (all : List Leaf) (rt : Nat → Nat) : ∀ (b : Blk) (cx : Ctx) (P : List Nat) (t : List Ev) (z : Nat),
+    Run (walkB Fix.all all rt cx b P).1 t → z ∈ P → z ∉ idsB b →
+    z ∈ (walkB Fix.all all rt cx b P).2 ∨ Ev.sync ∈ t := by
   intro b
   induction b with
   | nil => intro cx P t z _ h _; left; simpa [walkB] using h
@@ -226,7 +226,7 @@ theorem keep_or_sync (all : List Leaf) : ∀ (b : Blk) (cx : Ctx) (P : List Nat)
     obtain ⟨t'', hr'', rfl⟩ := hr'
     rw [idsB_leaf] at hb
     simp only [List.mem_cons, not_or] at hb
-    cases hh : (visit true all cx l P).1 with
+    cases hh : (visit Fix.all all rt cx l P).1 with
     | true => right; simp
     | false =>
       rcases ih _ _ _ _ hr'' (visit_keep_nohit h hh) hb.2 with k | k
@@ -246,11 +246,11 @@ theorem keep_or_sync (all : List Leaf) : ∀ (b : Blk) (cx : Ctx) (P : List Nat)
     rw [idsB_if] at hb
     simp only [List.mem_cons, List.mem_append, not_or] at hb
     obtain ⟨_, hba, hbe, hbr⟩ := hb
-    cases hh : (visit true all cx l P).1 with
+    cases hh : (visit Fix.all all rt cx l P).1 with
     | true => right; simp
     | false =>
-      have h1 := keep_out all a (plainCtx a) _ z (visit_keep_nohit h hh) hba hba
-      have h2 := keep_out all e (plainCtx e) _ z h1 hbe hbe
+      have h1 := keep_out all rt a (plainCtx cx a) _ z (visit_keep_nohit h hh) hba hba
+      have h2 := keep_out all rt e (plainCtx cx e) _ z h1 hbe hbe
       rcases ihr _ _ _ _ hr2 h2 hbr with k | k
       · left; exact k
       · right; simp [k]
@@ -263,15 +263,15 @@ theorem keep_or_sync (all : List Leaf) : ∀ (b : Blk) (cx : Ctx) (P : List Nat)
     rw [idsB_for] at hb
     simp only [List.mem_cons, List.mem_append, not_or] at hb
     obtain ⟨_, hbb, hby, hbr⟩ := hb
-    cases hh : (visit true all cx l P).1 with
+    cases hh : (visit Fix.all all rt cx l P).1 with
     | true => right; simp
     | false =>
-      have hsc : z ∉ (bodyCtx b y).scope := by
+      have hsc : z ∉ (bodyCtx cx b y).scope := by
         simp only [bodyCtx, List.mem_append, List.mem_singleton, not_or]; exact ⟨hbb, hby⟩
-      have h1 := keep_out all b (bodyCtx b y) _ z (visit_keep_nohit h hh) hsc hbb
-      have h2 : z ∈ (if ys then discharge true (bodyCtx b y).scope
-          (walkB true all (bodyCtx b y) b (visit true all cx l P).2).2
-          else (walkB true all (bodyCtx b y) b (visit true all cx l P).2).2) := by
+      have h1 := keep_out all rt b (bodyCtx cx b y) _ z (visit_keep_nohit h hh) hsc hbb
+      have h2 : z ∈ (if ys then discharge Fix.all (bodyCtx cx b y).scope
+          (walkB Fix.all all rt (bodyCtx cx b y) b (visit Fix.all all rt cx l P).2).2
+          else (walkB Fix.all all rt (bodyCtx cx b y) b (visit Fix.all all rt cx l P).2).2) := by
         split
         · exact mem_discharge.mpr ⟨h1, hsc⟩
         · exact h1
@@ -333,8 +333,8 @@ theorem star_split {S : List Ev → Prop} {t1 : List Ev} (hst : Star S t1) {u : 
     · exact List.mem_append_right _ (ih _ _ h2)
     · exact hit _ ha _ _ h1
 
-theorem pending_sync (all : List Leaf) : ∀ (b : Blk) (cx : Ctx) (P : List Nat) (t pre post : List Ev) (u : Leaf),
-    (idsB b).Nodup → Run (walkB true all cx b P).1 t → t = pre ++ Ev.op u :: post → u.id ∈ P →
+theorem pending_sync (all : List Leaf) (rt : Nat → Nat) : ∀ (b : Blk) (cx : Ctx) (P : List Nat) (t pre post : List Ev) (u : Leaf),
+    (idsB b).Nodup → Run (walkB Fix.all all rt cx b P).1 t → t = pre ++ Ev.op u :: post → u.id ∈ P →
     Ev.sync ∈ pre := by
   intro b
   induction b with
@@ -348,7 +348,7 @@ theorem pending_sync (all : List Leaf) : ∀ (b : Blk) (cx : Ctx) (P : List Nat)
     obtain ⟨t', hr', rfl⟩ := run_withSync.mp hr
     simp only [Run] at hr'
     obtain ⟨t'', hr'', rfl⟩ := hr'
-    cases hh : (visit true all cx l P).1 with
+    cases hh : (visit Fix.all all rt cx l P).1 with
     | true =>
       rw [hh] at ht
       exact sync_head_split ht
@@ -357,7 +357,7 @@ theorem pending_sync (all : List Leaf) : ∀ (b : Blk) (cx : Ctx) (P : List Nat)
       simp only [if_false, Bool.false_eq_true, List.nil_append] at ht
       rcases op_head_split ht with ⟨_, hul, _⟩ | ⟨pre', rfl, ht'⟩
       · exfalso
-        have : (visit true all cx l P).1 = true := visit_hit_iff.mpr (hul ▸ hu)
+        have : (visit Fix.all all rt cx l P).1 = true := visit_hit_iff.mpr (hul ▸ hu)
         rw [hh] at this; cases this
       · exact List.mem_cons_of_mem _ (ih _ _ _ _ _ _ (nodup_leaf hnd).1 hr'' ht' (visit_keep_nohit hu hh))
   | sync r ih =>
@@ -372,7 +372,7 @@ theorem pending_sync (all : List Leaf) : ∀ (b : Blk) (cx : Ctx) (P : List Nat)
     simp only [Run] at hr'
     obtain ⟨t1, t2, hbr, hr2, rfl⟩ := hr'
     obtain ⟨hna, hne, hnr, hda, hde, hdr, _, _, _⟩ := nodup_if hnd
-    cases hh : (visit true all cx l P).1 with
+    cases hh : (visit Fix.all all rt cx l P).1 with
     | true =>
       rw [hh] at ht
       exact sync_head_split ht
@@ -381,22 +381,22 @@ theorem pending_sync (all : List Leaf) : ∀ (b : Blk) (cx : Ctx) (P : List Nat)
       simp only [if_false, Bool.false_eq_true, List.nil_append] at ht
       rcases op_head_split ht with ⟨_, hul, _⟩ | ⟨pre', rfl, ht'⟩
       · exfalso
-        have : (visit true all cx l P).1 = true := visit_hit_iff.mpr (hul ▸ hu)
+        have : (visit Fix.all all rt cx l P).1 = true := visit_hit_iff.mpr (hul ▸ hu)
         rw [hh] at this; cases this
-      · have hu1 := visit_keep_nohit (all := all) (cx := cx) (o := l) hu hh
+      · have hu1 := visit_keep_nohit (all := all) (rt := rt) (cx := cx) (o := l) hu hh
         apply List.mem_cons_of_mem
         rcases append_split ht' with ⟨p2, rfl, h2⟩ | ⟨q, h1, _⟩
         · -- u is reached in the rest of the block
-          have hur : u ∈ leavesB r := run_mem _ _ _ _ _ _ _ hr2 (by rw [h2]; simp)
+          have hur : u ∈ leavesB r := run_mem _ _ _ _ _ _ _ _ hr2 (by rw [h2]; simp)
           have hid := hdr _ (id_mem_idsB hur)
-          have k1 := keep_out all a (plainCtx a) _ _ hu1 hid.1 hid.1
-          have k2 := keep_out all e (plainCtx e) _ _ k1 hid.2 hid.2
+          have k1 := keep_out all rt a (plainCtx cx a) _ _ hu1 hid.1 hid.1
+          have k2 := keep_out all rt e (plainCtx cx e) _ _ k1 hid.2 hid.2
           exact List.mem_append_right _ (ihr _ _ _ _ _ _ hnr hr2 h2 k2)
         · rcases hbr with hb | hb
           · exact iha _ _ _ _ _ _ hna hb h1 hu1
-          · have hue : u ∈ leavesB e := run_mem _ _ _ _ _ _ _ hb (by rw [h1]; simp)
+          · have hue : u ∈ leavesB e := run_mem _ _ _ _ _ _ _ _ hb (by rw [h1]; simp)
             have hid := hde _ (id_mem_idsB hue)
-            have k1 := keep_out all a (plainCtx a) _ _ hu1 hid.1 hid.1
+            have k1 := keep_out all rt a (plainCtx cx a) _ _ hu1 hid.1 hid.1
             exact ihe _ _ _ _ _ _ hne hb h1 k1
   | forO l b ys y r ihb ihr =>
     intro cx P t pre post u hnd hr ht hu
@@ -405,7 +405,7 @@ theorem pending_sync (all : List Leaf) : ∀ (b : Blk) (cx : Ctx) (P : List Nat)
     simp only [Run] at hr'
     obtain ⟨t1, t2, hst, hr2, rfl⟩ := hr'
     obtain ⟨hnb, hnr, hdb, hdr, hlb, hly, hlr⟩ := nodup_for hnd
-    cases hh : (visit true all cx l P).1 with
+    cases hh : (visit Fix.all all rt cx l P).1 with
     | true =>
       rw [hh] at ht
       exact sync_head_split ht
@@ -414,20 +414,20 @@ theorem pending_sync (all : List Leaf) : ∀ (b : Blk) (cx : Ctx) (P : List Nat)
       simp only [if_false, Bool.false_eq_true, List.nil_append] at ht
       rcases op_head_split ht with ⟨_, hul, _⟩ | ⟨pre', rfl, ht'⟩
       · exfalso
-        have : (visit true all cx l P).1 = true := visit_hit_iff.mpr (hul ▸ hu)
+        have : (visit Fix.all all rt cx l P).1 = true := visit_hit_iff.mpr (hul ▸ hu)
         rw [hh] at this; cases this
-      · have hu1 := visit_keep_nohit (all := all) (cx := cx) (o := l) hu hh
+      · have hu1 := visit_keep_nohit (all := all) (rt := rt) (cx := cx) (o := l) hu hh
         apply List.mem_cons_of_mem
         rcases append_split ht' with ⟨p2, rfl, h2⟩ | ⟨q, h1, _⟩
         · -- u is reached after the loop
-          have hur : u ∈ leavesB r := run_mem _ _ _ _ _ _ _ hr2 (by rw [h2]; simp)
+          have hur : u ∈ leavesB r := run_mem _ _ _ _ _ _ _ _ hr2 (by rw [h2]; simp)
           have hid := hdr _ (id_mem_idsB hur)
-          have hsc : u.id ∉ (bodyCtx b y).scope := by
+          have hsc : u.id ∉ (bodyCtx cx b y).scope := by
             simp only [bodyCtx, List.mem_append, List.mem_singleton, not_or]; exact ⟨hid.2, hid.1⟩
-          have k1 := keep_out all b (bodyCtx b y) _ _ hu1 hsc hid.2
-          have k2 : u.id ∈ (if ys then discharge true (bodyCtx b y).scope
-              (walkB true all (bodyCtx b y) b (visit true all cx l P).2).2
-              else (walkB true all (bodyCtx b y) b (visit true all cx l P).2).2) := by
+          have k1 := keep_out all rt b (bodyCtx cx b y) _ _ hu1 hsc hid.2
+          have k2 : u.id ∈ (if ys then discharge Fix.all (bodyCtx cx b y).scope
+              (walkB Fix.all all rt (bodyCtx cx b y) b (visit Fix.all all rt cx l P).2).2
+              else (walkB Fix.all all rt (bodyCtx cx b y) b (visit Fix.all all rt cx l P).2).2) := by
             split
             · exact mem_discharge.mpr ⟨k1, hsc⟩
             · exact k1
@@ -438,9 +438,9 @@ theorem pending_sync (all : List Leaf) : ∀ (b : Blk) (cx : Ctx) (P : List Nat)
           obtain ⟨s', hrs, rfl⟩ := hs
           rcases append_split hs1 with ⟨p2, rfl, h2⟩ | ⟨q', h1', _⟩
           · -- u is the terminator
-            cases hys : (ys || (visit true all (bodyCtx b y) y (if ys then discharge true (bodyCtx b y).scope
-                (walkB true all (bodyCtx b y) b (visit true all cx l P).2).2
-                else (walkB true all (bodyCtx b y) b (visit true all cx l P).2).2)).1) with
+            cases hys : (ys || (visit Fix.all all rt (bodyCtx cx b y) y (if ys then discharge Fix.all (bodyCtx cx b y).scope
+                (walkB Fix.all all rt (bodyCtx cx b y) b (visit Fix.all all rt cx l P).2).2
+                else (walkB Fix.all all rt (bodyCtx cx b y) b (visit Fix.all all rt cx l P).2).2)).1) with
             | true =>
               rw [hys] at h2
               simp only [ySync, if_true, List.cons_append, List.nil_append] at h2
@@ -454,9 +454,9 @@ theorem pending_sync (all : List Leaf) : ∀ (b : Blk) (cx : Ctx) (P : List Nat)
                 subst hys1
                 simp only [Bool.false_eq_true, if_false] at hys2
                 have hyb : y.id ∉ idsB b := fun h' => (hdb _ h').1 rfl
-                rcases keep_or_sync all b (bodyCtx b y) _ _ y.id hrs (huy ▸ hu1) hyb with k | k
+                rcases keep_or_sync all rt b (bodyCtx cx b y) _ _ y.id hrs (huy ▸ hu1) hyb with k | k
                 · exfalso
-                  have := visit_hit_iff (all := all) (cx := bodyCtx b y) (o := y).mpr k
+                  have := visit_hit_iff (all := all) (rt := rt) (cx := bodyCtx cx b y) (o := y).mpr k
                   rw [hys2] at this; cases this
                 · exact List.mem_append_left _ k
               · simp at h3
@@ -471,9 +471,9 @@ def VisAt (x : Leaf) (cx' : Ctx) : Blk → Ctx → Prop
   | .nil, _ => False
   | .leaf l r, cx => (x = l ∧ cx' = cx) ∨ VisAt x cx' r cx
   | .sync r, cx => VisAt x cx' r cx
-  | .ifO l a e r, cx => (x = l ∧ cx' = cx) ∨ VisAt x cx' a (plainCtx a) ∨ VisAt x cx' e (plainCtx e) ∨ VisAt x cx' r cx
+  | .ifO l a e r, cx => (x = l ∧ cx' = cx) ∨ VisAt x cx' a (plainCtx cx a) ∨ VisAt x cx' e (plainCtx cx e) ∨ VisAt x cx' r cx
   | .forO l b _ y r, cx =>
-    (x = l ∧ cx' = cx) ∨ VisAt x cx' b (bodyCtx b y) ∨ (x = y ∧ cx' = bodyCtx b y) ∨ VisAt x cx' r cx
+    (x = l ∧ cx' = cx) ∨ VisAt x cx' b (bodyCtx cx b y) ∨ (x = y ∧ cx' = bodyCtx cx b y) ∨ VisAt x cx' r cx
 
 theorem head_cases {h : Bool} {l x : Leaf} {tail a m1 : List Ev}
     (ht : (if h then [Ev.sync] else []) ++ Ev.op l :: tail = a ++ Ev.op x :: m1) :
@@ -531,11 +531,11 @@ theorem star_find {S : List Ev → Prop} {t : List Ev} (hst : Star S t) :
     · exact ih _ _ _ h2
     · exact ⟨_, a, q', _, ha, h1, h2⟩
 
-theorem dep_keep_or_sync (all : List Leaf) (x : Leaf) (z : Nat) :
+theorem dep_keep_or_sync (all : List Leaf) (rt : Nat → Nat) (x : Leaf) (z : Nat) :
     ∀ (b : Blk) (cx : Ctx) (P : List Nat) (t a m1 : List Ev),
-    (∀ cx', VisAt x cx' b cx → z ∈ adds all cx' x) →
-    Run (walkB true all cx b P).1 t → t = a ++ Ev.op x :: m1 → z ∉ idsB b →
-    z ∈ (walkB true all cx b P).2 ∨ Ev.sync ∈ m1 := by
+    (∀ cx', VisAt x cx' b cx → z ∈ adds Fix.all all rt cx' x) →
+    Run (walkB Fix.all all rt cx b P).1 t → t = a ++ Ev.op x :: m1 → z ∉ idsB b →
+    z ∈ (walkB Fix.all all rt cx b P).2 ∨ Ev.sync ∈ m1 := by
   intro b
   induction b with
   | nil =>
@@ -551,9 +551,9 @@ theorem dep_keep_or_sync (all : List Leaf) (x : Leaf) (z : Nat) :
     rw [idsB_leaf] at hz
     simp only [List.mem_cons, not_or] at hz
     rcases head_cases ht with ⟨hxl, rfl⟩ | ⟨a', ht'⟩
-    · have h1 : z ∈ (visit true all cx l P).2 := by
+    · have h1 : z ∈ (visit Fix.all all rt cx l P).2 := by
         subst hxl; exact visit_adds (hadd cx (Or.inl ⟨rfl, rfl⟩))
-      exact keep_or_sync all r cx _ _ z hr'' h1 hz.2
+      exact keep_or_sync all rt r cx _ _ z hr'' h1 hz.2
     · exact ih _ _ _ _ _ (fun cx' h => hadd cx' (Or.inr h)) hr'' ht' hz.2
   | sync r ih =>
     intro cx P t a m1 hadd hr ht hz
@@ -572,27 +572,27 @@ theorem dep_keep_or_sync (all : List Leaf) (x : Leaf) (z : Nat) :
     simp only [List.mem_cons, List.mem_append, not_or] at hz
     obtain ⟨_, hza, hze, hzr⟩ := hz
     -- from pending at the entry of the rest to the conclusion
-    have fin : ∀ {m2 : List Ev}, (z ∈ (walkB true all (plainCtx e) e
-          (walkB true all (plainCtx a0) a0 (visit true all cx l P).2).2).2 ∨ Ev.sync ∈ m2) →
-        z ∈ (walkB true all cx r (walkB true all (plainCtx e) e
-          (walkB true all (plainCtx a0) a0 (visit true all cx l P).2).2).2).2 ∨ Ev.sync ∈ m2 ++ t2 := by
+    have fin : ∀ {m2 : List Ev}, (z ∈ (walkB Fix.all all rt (plainCtx cx e) e
+          (walkB Fix.all all rt (plainCtx cx a0) a0 (visit Fix.all all rt cx l P).2).2).2 ∨ Ev.sync ∈ m2) →
+        z ∈ (walkB Fix.all all rt cx r (walkB Fix.all all rt (plainCtx cx e) e
+          (walkB Fix.all all rt (plainCtx cx a0) a0 (visit Fix.all all rt cx l P).2).2).2).2 ∨ Ev.sync ∈ m2 ++ t2 := by
       intro m2 h
       rcases h with h | h
-      · rcases keep_or_sync all r cx _ _ z hr2 h hzr with k | k
+      · rcases keep_or_sync all rt r cx _ _ z hr2 h hzr with k | k
         · exact Or.inl k
         · exact Or.inr (List.mem_append_right _ k)
       · exact Or.inr (List.mem_append_left _ h)
     rcases head_cases ht with ⟨hxl, rfl⟩ | ⟨a', ht'⟩
-    · have h1 : z ∈ (visit true all cx l P).2 := by
+    · have h1 : z ∈ (visit Fix.all all rt cx l P).2 := by
         subst hxl; exact visit_adds (hadd cx (Or.inl ⟨rfl, rfl⟩))
-      have k1 := keep_out all a0 (plainCtx a0) _ z h1 hza hza
-      have k2 := keep_out all e (plainCtx e) _ z k1 hze hze
+      have k1 := keep_out all rt a0 (plainCtx cx a0) _ z h1 hza hza
+      have k2 := keep_out all rt e (plainCtx cx e) _ z k1 hze hze
       exact fin (m2 := t1) (Or.inl k2) |>.imp id (fun h => h)
     · rcases append_split ht' with ⟨p2, _, h2⟩ | ⟨q, h1, rfl⟩
       · exact ihr _ _ _ _ _ (fun cx' h => hadd cx' (Or.inr (Or.inr (Or.inr h)))) hr2 h2 hzr
       · rcases hbr with hb | hb
         · rcases iha _ _ _ _ _ (fun cx' h => hadd cx' (Or.inr (Or.inl h))) hb h1 hza with k | k
-          · exact fin (Or.inl (keep_out all e (plainCtx e) _ z k hze hze))
+          · exact fin (Or.inl (keep_out all rt e (plainCtx cx e) _ z k hze hze))
           · exact fin (Or.inr k)
         · exact fin (ihe _ _ _ _ _ (fun cx' h => hadd cx' (Or.inr (Or.inr (Or.inl h)))) hb h1 hze)
   | forO l b ys y r ihb ihr =>
@@ -604,34 +604,34 @@ theorem dep_keep_or_sync (all : List Leaf) (x : Leaf) (z : Nat) :
     rw [idsB_for] at hz
     simp only [List.mem_cons, List.mem_append, not_or] at hz
     obtain ⟨_, hzb, hzy, hzr⟩ := hz
-    have hsc : z ∉ (bodyCtx b y).scope := by
+    have hsc : z ∉ (bodyCtx cx b y).scope := by
       simp only [bodyCtx, List.mem_append, List.mem_singleton, not_or]; exact ⟨hzb, hzy⟩
     -- from pending after the body to pending after the terminator
-    have stepY : z ∈ (walkB true all (bodyCtx b y) b (visit true all cx l P).2).2 →
-        z ∈ (visit true all (bodyCtx b y) y (if ys then discharge true (bodyCtx b y).scope
-          (walkB true all (bodyCtx b y) b (visit true all cx l P).2).2
-          else (walkB true all (bodyCtx b y) b (visit true all cx l P).2).2)).2 := by
+    have stepY : z ∈ (walkB Fix.all all rt (bodyCtx cx b y) b (visit Fix.all all rt cx l P).2).2 →
+        z ∈ (visit Fix.all all rt (bodyCtx cx b y) y (if ys then discharge Fix.all (bodyCtx cx b y).scope
+          (walkB Fix.all all rt (bodyCtx cx b y) b (visit Fix.all all rt cx l P).2).2
+          else (walkB Fix.all all rt (bodyCtx cx b y) b (visit Fix.all all rt cx l P).2).2)).2 := by
       intro k1
       apply visit_keep _ hsc
       split
       · exact mem_discharge.mpr ⟨k1, hsc⟩
       · exact k1
-    have fin : ∀ {m2 : List Ev}, (z ∈ (visit true all (bodyCtx b y) y (if ys then discharge true (bodyCtx b y).scope
-          (walkB true all (bodyCtx b y) b (visit true all cx l P).2).2
-          else (walkB true all (bodyCtx b y) b (visit true all cx l P).2).2)).2 ∨ Ev.sync ∈ m2) →
-        z ∈ (walkB true all cx r (visit true all (bodyCtx b y) y (if ys then discharge true (bodyCtx b y).scope
-          (walkB true all (bodyCtx b y) b (visit true all cx l P).2).2
-          else (walkB true all (bodyCtx b y) b (visit true all cx l P).2).2)).2).2 ∨ Ev.sync ∈ m2 ++ t2 := by
+    have fin : ∀ {m2 : List Ev}, (z ∈ (visit Fix.all all rt (bodyCtx cx b y) y (if ys then discharge Fix.all (bodyCtx cx b y).scope
+          (walkB Fix.all all rt (bodyCtx cx b y) b (visit Fix.all all rt cx l P).2).2
+          else (walkB Fix.all all rt (bodyCtx cx b y) b (visit Fix.all all rt cx l P).2).2)).2 ∨ Ev.sync ∈ m2) →
+        z ∈ (walkB Fix.all all rt cx r (visit Fix.all all rt (bodyCtx cx b y) y (if ys then discharge Fix.all (bodyCtx cx b y).scope
+          (walkB Fix.all all rt (bodyCtx cx b y) b (visit Fix.all all rt cx l P).2).2
+          else (walkB Fix.all all rt (bodyCtx cx b y) b (visit Fix.all all rt cx l P).2).2)).2).2 ∨ Ev.sync ∈ m2 ++ t2 := by
       intro m2 h
       rcases h with h | h
-      · rcases keep_or_sync all r cx _ _ z hr2 h hzr with k | k
+      · rcases keep_or_sync all rt r cx _ _ z hr2 h hzr with k | k
         · exact Or.inl k
         · exact Or.inr (List.mem_append_right _ k)
       · exact Or.inr (List.mem_append_left _ h)
     rcases head_cases ht with ⟨hxl, rfl⟩ | ⟨a', ht'⟩
-    · have h1 : z ∈ (visit true all cx l P).2 := by
+    · have h1 : z ∈ (visit Fix.all all rt cx l P).2 := by
         subst hxl; exact visit_adds (hadd cx (Or.inl ⟨rfl, rfl⟩))
-      exact fin (m2 := t1) (Or.inl (stepY (keep_out all b (bodyCtx b y) _ z h1 hsc hzb)))
+      exact fin (m2 := t1) (Or.inl (stepY (keep_out all rt b (bodyCtx cx b y) _ z h1 hsc hzb)))
     · rcases append_split ht' with ⟨p2, _, h2⟩ | ⟨q, h1, rfl⟩
       · exact ihr _ _ _ _ _ (fun cx' h => hadd cx' (Or.inr (Or.inr (Or.inr h)))) hr2 h2 hzr
       · obtain ⟨s, a1, q1, q2, hs, hs1, rfl⟩ := star_find hst _ _ _ h1
@@ -652,23 +652,25 @@ theorem dep_keep_or_sync (all : List Leaf) (x : Leaf) (z : Nat) :
 
 /-! ### dependencies the walk records -/
 
-/-- `x` runs on one core, `u` not on that core only, and they share an SSA value -/
-def Dep (x u : Leaf) : Prop :=
-  ((x.cls = Cls.dm ∧ u.cls ≠ Cls.dm) ∨ (x.cls = Cls.cp ∧ u.cls ≠ Cls.cp)) ∧ ∃ v, v ∈ x.vals ∧ v ∈ u.vals
+/-- `x` runs on one core, `u` not on that core only, and they use two views of one buffer
+(`rt` = root of an SSA value; `rt = id`: they share an SSA value) -/
+def Dep (rt : Nat → Nat) (x u : Leaf) : Prop :=
+  ((x.cls = Cls.dm ∧ u.cls ≠ Cls.dm) ∨ (x.cls = Cls.cp ∧ u.cls ≠ Cls.cp)) ∧
+    ∃ v w, v ∈ x.vals ∧ w ∈ u.vals ∧ rt w = rt v
 
-theorem dep_adds {all : List Leaf} {cx : Ctx} {x u : Leaf} (hd : Dep x u) (hu : u ∈ all) :
-    u.id ∈ adds all cx x := by
-  obtain ⟨hc, v, hv1, hv2⟩ := hd
+theorem dep_adds {all : List Leaf} {rt : Nat → Nat} {cx : Ctx} {x u : Leaf} (hd : Dep rt x u) (hu : u ∈ all) :
+    u.id ∈ adds Fix.all all rt cx x := by
+  obtain ⟨hc, v, w, hv1, hw, hvw⟩ := hd
   simp only [adds, usersOf, List.mem_flatMap, List.mem_filter]
-  refine ⟨v, hv1, u, ⟨hu, by simpa using hv2⟩, ?_⟩
+  refine ⟨v, hv1, u, ⟨hu, by simp only [List.any_eq_true, beq_iff_eq]; exact ⟨w, hw, hvw⟩⟩, ?_⟩
   rcases hc with ⟨h1, h2⟩ | ⟨h1, h2⟩ <;> simp [addsFor, h1, h2]
 
-theorem dep_adds_yield {all : List Leaf} {scope kids : List Nat} {yid : Nat} {x u : Leaf}
-    (hd : Dep x u) (hu : u ∈ all) (hk : u.id ∈ kids) :
-    yid ∈ adds all { scope := scope, forKids := some (kids, yid) } x := by
-  obtain ⟨hc, v, hv1, hv2⟩ := hd
+theorem dep_adds_yield {all : List Leaf} {rt : Nat → Nat} {cx : Ctx} {yid : Nat} {x u : Leaf}
+    (hd : Dep rt x u) (hu : u ∈ all) (hk : firstLoop cx.loops u.id = some yid) :
+    yid ∈ adds Fix.all all rt cx x := by
+  obtain ⟨hc, v, w, hv1, hw, hvw⟩ := hd
   simp only [adds, usersOf, List.mem_flatMap, List.mem_filter]
-  refine ⟨v, hv1, u, ⟨hu, by simpa using hv2⟩, ?_⟩
+  refine ⟨v, hv1, u, ⟨hu, by simp only [List.any_eq_true, beq_iff_eq]; exact ⟨w, hw, hvw⟩⟩, ?_⟩
   rcases hc with ⟨h1, h2⟩ | ⟨h1, h2⟩ <;> simp [addsFor, yieldOf, h1, h2, hk]
 
 theorem kidL_sub {x : Leaf} : ∀ {b : Blk}, x ∈ kidL b → x ∈ leavesB b := by
@@ -715,220 +717,195 @@ theorem visAt_mem {x : Leaf} {cx' : Ctx} : ∀ {b : Blk} {cx : Ctx}, VisAt x cx'
     · exact Or.inr (Or.inr (Or.inl h.1))
     · exact Or.inr (Or.inr (Or.inr (ihr h)))
 
-/-- a direct child of the block is visited under the block's own context (ids are unique) -/
-theorem visAt_kid {x : Leaf} {cx' : Ctx} : ∀ {b : Blk} {cx : Ctx}, (idsB b).Nodup → x ∈ kidL b →
-    VisAt x cx' b cx → cx' = cx := by
-  intro b
-  induction b with
-  | nil => intro cx _ _ h; simp [VisAt] at h
-  | leaf l r ih =>
-    intro cx hnd hk h
-    simp only [VisAt] at h; simp only [kidL, List.mem_cons] at hk
-    obtain ⟨hnr, hl⟩ := nodup_leaf hnd
-    rcases h with h | h
-    · exact h.2
-    · rcases hk with hk | hk
-      · exact absurd (id_mem_idsB (visAt_mem h)) (hk ▸ hl)
-      · exact ih hnr hk h
-  | sync r ih =>
-    intro cx hnd hk h
-    rw [idsB_sync] at hnd
-    exact ih hnd hk h
-  | ifO l a e r _ _ ihr =>
-    intro cx hnd hk h
-    simp only [VisAt] at h; simp only [kidL, List.mem_cons] at hk
-    obtain ⟨_, _, hnr, hda, hde, _, hla, hle, hlr⟩ := nodup_if hnd
-    rcases h with h | h | h | h
-    · exact h.2
-    · rcases hk with hk | hk
-      · exact absurd (id_mem_idsB (visAt_mem h)) (hk ▸ hla)
-      · exact absurd (id_mem_idsB (kidL_sub hk)) (hda _ (id_mem_idsB (visAt_mem h))).2
-    · rcases hk with hk | hk
-      · exact absurd (id_mem_idsB (visAt_mem h)) (hk ▸ hle)
-      · exact absurd (id_mem_idsB (kidL_sub hk)) (hde _ (id_mem_idsB (visAt_mem h))).2
-    · rcases hk with hk | hk
-      · exact absurd (id_mem_idsB (visAt_mem h)) (hk ▸ hlr)
-      · exact ihr hnr hk h
-  | forO l b ys y r _ ihr =>
-    intro cx hnd hk h
-    simp only [VisAt] at h; simp only [kidL, List.mem_cons] at hk
-    obtain ⟨_, hnr, hdb, hdr, hlb, hly, hlr⟩ := nodup_for hnd
-    rcases h with h | h | h | h
-    · exact h.2
-    · rcases hk with hk | hk
-      · exact absurd (id_mem_idsB (visAt_mem h)) (hk ▸ hlb)
-      · exact absurd (id_mem_idsB (kidL_sub hk)) (hdb _ (id_mem_idsB (visAt_mem h))).2
-    · rcases hk with hk | hk
-      · exact absurd (by rw [← hk, h.1]) hly
-      · exact absurd (by rw [h.1]) (hdr _ (id_mem_idsB (kidL_sub hk))).1
-    · rcases hk with hk | hk
-      · exact absurd (id_mem_idsB (visAt_mem h)) (hk ▸ hlr)
-      · exact ihr hnr hk h
-
-/-- `x` and `u` are direct children of one `scf.for` body somewhere inside the block (`u` may be its terminator) -/
-def SibLoop (x u : Leaf) : Blk → Prop
+/-- some `scf.for` inside the block (at any depth) holds both `x` and operation `u` in its body -/
+def InLoop (x u : Leaf) : Blk → Prop
   | .nil => False
-  | .leaf _ r => SibLoop x u r
-  | .sync r => SibLoop x u r
-  | .ifO _ a e r => SibLoop x u a ∨ SibLoop x u e ∨ SibLoop x u r
-  | .forO _ b _ y r => (x ∈ kidL b ∧ (u ∈ kidL b ∨ u = y)) ∨ SibLoop x u b ∨ SibLoop x u r
+  | .leaf _ r => InLoop x u r
+  | .sync r => InLoop x u r
+  | .ifO _ a e r => InLoop x u a ∨ InLoop x u e ∨ InLoop x u r
+  | .forO _ b _ y r => ((x ∈ leavesB b ∨ x = y) ∧ u.id ∈ idsB b ++ [y.id]) ∨ InLoop x u b ∨ InLoop x u r
 
-theorem sib_mem {x u : Leaf} : ∀ {b : Blk}, SibLoop x u b → x ∈ leavesB b := by
+theorem inloop_mem {x u : Leaf} : ∀ {b : Blk}, InLoop x u b → x ∈ leavesB b := by
   intro b
   induction b with
-  | nil => intro h; simp [SibLoop] at h
+  | nil => intro h; simp [InLoop] at h
   | leaf l r ih => intro h; simp only [leavesB, List.mem_cons]; exact Or.inr (ih h)
   | sync r ih => intro h; exact ih h
   | ifO l a e r iha ihe ihr =>
-    intro h; simp only [SibLoop] at h; simp only [leavesB, List.mem_cons, List.mem_append]
+    intro h; simp only [InLoop] at h; simp only [leavesB, List.mem_cons, List.mem_append]
     rcases h with h | h | h
     · exact Or.inr (Or.inl (iha h))
     · exact Or.inr (Or.inr (Or.inl (ihe h)))
     · exact Or.inr (Or.inr (Or.inr (ihr h)))
   | forO l b ys y r ihb ihr =>
-    intro h; simp only [SibLoop] at h; simp only [leavesB, List.mem_cons, List.mem_append]
-    rcases h with h | h | h
-    · exact Or.inr (Or.inl (kidL_sub h.1))
+    intro h; simp only [InLoop] at h; simp only [leavesB, List.mem_cons, List.mem_append]
+    rcases h with ⟨h | h, _⟩ | h | h
+    · exact Or.inr (Or.inl h)
+    · exact Or.inr (Or.inr (Or.inl h))
     · exact Or.inr (Or.inl (ihb h))
     · exact Or.inr (Or.inr (Or.inr (ihr h)))
 
-
-/-! ### Lemma F: the yield rule. After an occurrence of `x`, the rest of the iteration of the loop whose body
-holds `x` and `u` as direct children contains a barrier. -/
-
-theorem sib_sync (all : List Leaf) (x u : Leaf) (hd : Dep x u) (hu : u ∈ all) :
-    ∀ (b : Blk) (cx : Ctx) (P : List Nat) (t a m1 : List Ev),
-    (idsB b).Nodup → Run (walkB true all cx b P).1 t → t = a ++ Ev.op x :: m1 → SibLoop x u b →
-    Ev.sync ∈ m1 := by
+/-- `common_loop`: when no loop inside the block holds both operations, the innermost loop that contains `u`,
+seen from where `x` is visited, is the one seen from the block's own context -/
+theorem visAt_firstLoop {x u : Leaf} {cx' : Ctx} : ∀ {b : Blk} {cx : Ctx}, VisAt x cx' b cx → ¬ InLoop x u b →
+    firstLoop cx'.loops u.id = firstLoop cx.loops u.id := by
   intro b
   induction b with
-  | nil => intro cx P t a m1 _ _ _ h; simp [SibLoop] at h
+  | nil => intro cx h; simp [VisAt] at h
   | leaf l r ih =>
-    intro cx P t a m1 hnd hr ht hsib
+    intro cx h hn
+    simp only [VisAt] at h; simp only [InLoop] at hn
+    rcases h with h | h
+    · rw [h.2]
+    · exact ih h hn
+  | sync r ih => intro cx h hn; exact ih h hn
+  | ifO l a e r iha ihe ihr =>
+    intro cx h hn
+    simp only [VisAt] at h; simp only [InLoop, not_or] at hn
+    rcases h with h | h | h | h
+    · rw [h.2]
+    · exact iha (cx := plainCtx cx a) h hn.1
+    · exact ihe (cx := plainCtx cx e) h hn.2.1
+    · exact ihr h hn.2.2
+  | forO l b ys y r ihb ihr =>
+    intro cx h hn
+    simp only [VisAt] at h; simp only [InLoop, not_or, not_and] at hn
+    obtain ⟨hn1, hn2, hn3⟩ := hn
+    rcases h with h | h | h | h
+    · rw [h.2]
+    · rw [ihb (cx := bodyCtx cx b y) h hn2]
+      have : u.id ∉ idsB b ++ [y.id] := hn1 (Or.inl (visAt_mem h))
+      simp [bodyCtx, firstLoop, this]
+    · rw [h.2]
+      have : u.id ∉ idsB b ++ [y.id] := hn1 (Or.inr h.1)
+      simp [bodyCtx, firstLoop, this]
+    · exact ihr h hn3
+
+theorem dep_not_all {rt : Nat → Nat} {x u : Leaf} (hd : Dep rt x u) : x.cls ≠ Cls.all := by
+  rcases hd.1 with ⟨h, _⟩ | ⟨h, _⟩ <;> simp [h]
+
+/-! ### Lemma F: the yield rule (with FC13a). After an occurrence of `x`, the rest of the iteration of the innermost
+loop that holds `x` and `u` contains a barrier. -/
+
+theorem inloop_sync (all : List Leaf) (rt : Nat → Nat) (x u : Leaf) (hd : Dep rt x u) (hu : u ∈ all) :
+    ∀ (b : Blk) (cx : Ctx) (P : List Nat) (t a m1 : List Ev),
+    (idsB b).Nodup → CompoundAll b → Run (walkB Fix.all all rt cx b P).1 t → t = a ++ Ev.op x :: m1 →
+    InLoop x u b → Ev.sync ∈ m1 := by
+  intro b
+  induction b with
+  | nil => intro cx P t a m1 _ _ _ _ h; simp [InLoop] at h
+  | leaf l r ih =>
+    intro cx P t a m1 hnd hca hr ht hsib
     simp only [walkB] at hr
     obtain ⟨t', hr', rfl⟩ := run_withSync.mp hr
     simp only [Run] at hr'
     obtain ⟨t'', hr'', rfl⟩ := hr'
-    simp only [SibLoop] at hsib
+    simp only [InLoop] at hsib
     obtain ⟨hnr, hl⟩ := nodup_leaf hnd
     rcases head_cases ht with ⟨hxl, _⟩ | ⟨a', ht'⟩
-    · exact absurd (id_mem_idsB (sib_mem hsib)) (hxl ▸ hl)
-    · exact ih _ _ _ _ _ hnr hr'' ht' hsib
+    · exact absurd (id_mem_idsB (inloop_mem hsib)) (hxl ▸ hl)
+    · exact ih _ _ _ _ _ hnr hca hr'' ht' hsib
   | sync r ih =>
-    intro cx P t a m1 hnd hr ht hsib
+    intro cx P t a m1 hnd hca hr ht hsib
     simp only [walkB, Run] at hr
     obtain ⟨t', hr', rfl⟩ := hr
     obtain ⟨a', ht'⟩ := sync_strip ht
     rw [idsB_sync] at hnd
-    exact ih _ _ _ _ _ hnd hr' ht' hsib
+    exact ih _ _ _ _ _ hnd hca hr' ht' hsib
   | ifO l a0 e r iha ihe ihr =>
-    intro cx P t a m1 hnd hr ht hsib
+    intro cx P t a m1 hnd hca hr ht hsib
     simp only [walkB] at hr
     obtain ⟨t', hr', rfl⟩ := run_withSync.mp hr
     simp only [Run] at hr'
     obtain ⟨t1, t2, hbr, hr2, rfl⟩ := hr'
-    simp only [SibLoop] at hsib
+    simp only [InLoop] at hsib
+    simp only [CompoundAll] at hca
     obtain ⟨hna, hne, hnr, hda, hde, hdr, hla, hle, hlr⟩ := nodup_if hnd
     rcases head_cases ht with ⟨hxl, _⟩ | ⟨a', ht'⟩
-    · exfalso
-      rcases hsib with h | h | h
-      · exact (hxl ▸ hla) (id_mem_idsB (sib_mem h))
-      · exact (hxl ▸ hle) (id_mem_idsB (sib_mem h))
-      · exact (hxl ▸ hlr) (id_mem_idsB (sib_mem h))
+    · exact absurd (hxl ▸ hca.1) (dep_not_all hd)
     · rcases append_split ht' with ⟨p2, _, h2⟩ | ⟨q, h1, rfl⟩
-      · have hxr : x ∈ leavesB r := run_mem _ _ _ _ _ _ _ hr2 (by rw [h2]; simp)
+      · have hxr : x ∈ leavesB r := run_mem _ _ _ _ _ _ _ _ hr2 (by rw [h2]; simp)
         have hid := hdr _ (id_mem_idsB hxr)
         rcases hsib with h | h | h
-        · exact absurd (id_mem_idsB (sib_mem h)) hid.1
-        · exact absurd (id_mem_idsB (sib_mem h)) hid.2
-        · exact ihr _ _ _ _ _ hnr hr2 h2 h
+        · exact absurd (id_mem_idsB (inloop_mem h)) hid.1
+        · exact absurd (id_mem_idsB (inloop_mem h)) hid.2
+        · exact ihr _ _ _ _ _ hnr hca.2.2.2 hr2 h2 h
       · apply List.mem_append_left
         rcases hbr with hb | hb
-        · have hxa : x ∈ leavesB a0 := run_mem _ _ _ _ _ _ _ hb (by rw [h1]; simp)
+        · have hxa : x ∈ leavesB a0 := run_mem _ _ _ _ _ _ _ _ hb (by rw [h1]; simp)
           have hid := hda _ (id_mem_idsB hxa)
           rcases hsib with h | h | h
-          · exact iha _ _ _ _ _ hna hb h1 h
-          · exact absurd (id_mem_idsB (sib_mem h)) hid.1
-          · exact absurd (id_mem_idsB (sib_mem h)) hid.2
-        · have hxe : x ∈ leavesB e := run_mem _ _ _ _ _ _ _ hb (by rw [h1]; simp)
+          · exact iha _ _ _ _ _ hna hca.2.1 hb h1 h
+          · exact absurd (id_mem_idsB (inloop_mem h)) hid.1
+          · exact absurd (id_mem_idsB (inloop_mem h)) hid.2
+        · have hxe : x ∈ leavesB e := run_mem _ _ _ _ _ _ _ _ hb (by rw [h1]; simp)
           have hid := hde _ (id_mem_idsB hxe)
           rcases hsib with h | h | h
-          · exact absurd (id_mem_idsB (sib_mem h)) hid.1
-          · exact ihe _ _ _ _ _ hne hb h1 h
-          · exact absurd (id_mem_idsB (sib_mem h)) hid.2
+          · exact absurd (id_mem_idsB (inloop_mem h)) hid.1
+          · exact ihe _ _ _ _ _ hne hca.2.2.1 hb h1 h
+          · exact absurd (id_mem_idsB (inloop_mem h)) hid.2
   | forO l b ys y r ihb ihr =>
-    intro cx P t a m1 hnd hr ht hsib
+    intro cx P t a m1 hnd hca hr ht hsib
     simp only [walkB] at hr
     obtain ⟨t', hr', rfl⟩ := run_withSync.mp hr
     simp only [Run] at hr'
     obtain ⟨t1, t2, hst, hr2, rfl⟩ := hr'
-    simp only [SibLoop] at hsib
+    simp only [InLoop] at hsib
+    simp only [CompoundAll] at hca
     obtain ⟨hnb, hnr, hdb, hdr, hlb, hly, hlr⟩ := nodup_for hnd
     have hyb : y.id ∉ idsB b := fun h' => (hdb _ h').1 rfl
     rcases head_cases ht with ⟨hxl, _⟩ | ⟨a', ht'⟩
-    · exfalso
-      rcases hsib with h | h | h
-      · exact (hxl ▸ hlb) (id_mem_idsB (kidL_sub h.1))
-      · exact (hxl ▸ hlb) (id_mem_idsB (sib_mem h))
-      · exact (hxl ▸ hlr) (id_mem_idsB (sib_mem h))
+    · exact absurd (hxl ▸ hca.1) (dep_not_all hd)
     · rcases append_split ht' with ⟨p2, _, h2⟩ | ⟨q, h1, rfl⟩
-      · have hxr : x ∈ leavesB r := run_mem _ _ _ _ _ _ _ hr2 (by rw [h2]; simp)
+      · have hxr : x ∈ leavesB r := run_mem _ _ _ _ _ _ _ _ hr2 (by rw [h2]; simp)
         have hid := hdr _ (id_mem_idsB hxr)
-        rcases hsib with h | h | h
-        · exact absurd (id_mem_idsB (kidL_sub h.1)) hid.2
-        · exact absurd (id_mem_idsB (sib_mem h)) hid.2
-        · exact ihr _ _ _ _ _ hnr hr2 h2 h
+        rcases hsib with ⟨h | h, _⟩ | h | h
+        · exact absurd (id_mem_idsB h) hid.2
+        · exact absurd (by rw [h]) hid.1
+        · exact absurd (id_mem_idsB (inloop_mem h)) hid.2
+        · exact ihr _ _ _ _ _ hnr hca.2.2.2 hr2 h2 h
       · apply List.mem_append_left
         obtain ⟨s, a1, q1, q2, hs, hs1, rfl⟩ := star_find hst _ _ _ h1
         apply List.mem_append_left
         obtain ⟨s', hrs, rfl⟩ := hs
         rcases append_split hs1 with ⟨p2, _, h2⟩ | ⟨q', h1', rfl⟩
-        · -- x would be the terminator
+        · -- x would be the terminator, which runs on all cores
           obtain ⟨hxy, _, _⟩ := tail_y_cases h2
-          exfalso
-          rcases hsib with h | h | h
-          · exact (hxy ▸ hyb) (id_mem_idsB (kidL_sub h.1))
-          · exact (hxy ▸ hyb) (id_mem_idsB (sib_mem h))
-          · exact (hdr _ (id_mem_idsB (sib_mem h))).1 (by rw [hxy])
-        · have hxb : x ∈ leavesB b := run_mem _ _ _ _ _ _ _ hrs (by rw [h1']; simp)
-          rcases hsib with h | h | h
-          · -- the yield rule proper
-            have hk : u.id ∈ (kidL b).map (·.id) ++ [y.id] := by
-              rcases h.2 with h' | h'
-              · exact List.mem_append_left _ (List.mem_map_of_mem h')
-              · rw [h']; simp
-            have key := dep_keep_or_sync all x y.id b (bodyCtx b y) _ _ _ _ (by
-              intro cx' hv
-              rw [visAt_kid hnb h.1 hv]
-              exact dep_adds_yield hd hu hk) hrs h1' hyb
-            rcases key with k | k
-            · apply List.mem_append_right
-              have hys : (ys || (visit true all (bodyCtx b y) y (if ys then discharge true (bodyCtx b y).scope
-                  (walkB true all (bodyCtx b y) b (visit true all cx l P).2).2
-                  else (walkB true all (bodyCtx b y) b (visit true all cx l P).2).2)).1) = true := by
-                cases ys with
-                | true => rfl
-                | false =>
-                  simp only [Bool.false_or, Bool.false_eq_true, if_false]
-                  exact visit_hit_iff.mpr k
-              rw [hys]; simp [ySync]
-            · exact List.mem_append_left _ k
-          · exact List.mem_append_left _ (ihb _ _ _ _ _ hnb hrs h1' h)
-          · exact absurd (id_mem_idsB (sib_mem h)) (hdb _ (id_mem_idsB hxb)).2
-
+          exact absurd (hxy ▸ hca.2.1) (dep_not_all hd)
+        · have hxb : x ∈ leavesB b := run_mem _ _ _ _ _ _ _ _ hrs (by rw [h1']; simp)
+          have inner : InLoop x u b → Ev.sync ∈ q' ++ (ySync (ys || (visit Fix.all all rt (bodyCtx cx b y) y
+              (if ys then discharge Fix.all (bodyCtx cx b y).scope
+                (walkB Fix.all all rt (bodyCtx cx b y) b (visit Fix.all all rt cx l P).2).2
+                else (walkB Fix.all all rt (bodyCtx cx b y) b (visit Fix.all all rt cx l P).2).2)).1) ++ [Ev.op y]) :=
+            fun h => List.mem_append_left _ (ihb _ _ _ _ _ hnb hca.2.2.1 hrs h1' h)
+          rcases hsib with ⟨_, huid⟩ | h | h
+          · by_cases hin : InLoop x u b
+            · exact inner hin
+            · -- this loop is the innermost one holding both: its yield becomes pending when x is visited
+              have key := dep_keep_or_sync all rt x y.id b (bodyCtx cx b y) _ _ _ _ (by
+                intro cx' hv
+                apply dep_adds_yield hd hu
+                rw [visAt_firstLoop hv hin]
+                have : (idsB b ++ [y.id]).contains u.id = true := by simpa using huid
+                show firstLoop ((idsB b ++ [y.id], y.id) :: cx.loops) u.id = some y.id
+                simp only [firstLoop]
+                rw [if_pos this]) hrs h1' hyb
+              rcases key with k | k
+              · apply List.mem_append_right
+                have hys : (ys || (visit Fix.all all rt (bodyCtx cx b y) y (if ys then discharge Fix.all (bodyCtx cx b y).scope
+                    (walkB Fix.all all rt (bodyCtx cx b y) b (visit Fix.all all rt cx l P).2).2
+                    else (walkB Fix.all all rt (bodyCtx cx b y) b (visit Fix.all all rt cx l P).2).2)).1) = true := by
+                  cases ys with
+                  | true => rfl
+                  | false =>
+                    simp only [Bool.false_or, Bool.false_eq_true, if_false]
+                    exact visit_hit_iff.mpr k
+                rw [hys]; simp [ySync]
+              · exact List.mem_append_left _ k
+          · exact inner h
+          · exact absurd (id_mem_idsB (inloop_mem h)) (hdb _ (id_mem_idsB hxb)).2
 
 /-! ### Lemma C: every dependency that starts at a single-core operation is separated by a barrier -/
-
-/-- clause `BackEdgeSiblings` for one pair: whenever a loop contains both `x` and `u`, they are direct children
-of one loop body inside it (the only situation in which the walk makes the loop's yield pending) -/
-def LoopOK (x u : Leaf) : Blk → Prop
-  | .nil => True
-  | .leaf _ r => LoopOK x u r
-  | .sync r => LoopOK x u r
-  | .ifO _ a e r => LoopOK x u a ∧ LoopOK x u e ∧ LoopOK x u r
-  | .forO l b ys y r =>
-    ((x ∈ leavesB b ∨ x = y) → (u ∈ leavesB b ∨ u = y) → SibLoop x u (.forO l b ys y .nil)) ∧
-    LoopOK x u b ∧ LoopOK x u r
 
 theorem star_pair {S : List Ev → Prop} {t : List Ev} (hst : Star S t) :
     ∀ (a m c : List Ev) (e1 e2 : Ev), t = a ++ e1 :: (m ++ e2 :: c) →
@@ -944,9 +921,9 @@ theorem star_pair {S : List Ev → Prop} {t : List Ev} (hst : Star S t) :
       · exact Or.inr ⟨_, a, q, p2, ha, h1, h3⟩
       · exact Or.inl ⟨_, a, q'', ha, by rw [h1, h3]⟩
 
-theorem loop_mem (fx : Bool) (all : List Leaf) {b : Blk} {y : Leaf} {cxb : Ctx} {P1 : List Nat} {h : Bool}
+theorem loop_mem (fx : Fix) (all : List Leaf) (rt : Nat → Nat) {b : Blk} {y : Leaf} {cxb : Ctx} {P1 : List Nat} {h : Bool}
     {t1 : List Ev}
-    (hst : Star (fun s => ∃ s', Run (walkB fx all cxb b P1).1 s' ∧ s = s' ++ (ySync h ++ [Ev.op y])) t1)
+    (hst : Star (fun s => ∃ s', Run (walkB fx all rt cxb b P1).1 s' ∧ s = s' ++ (ySync h ++ [Ev.op y])) t1)
     {z : Leaf} (hz : Ev.op z ∈ t1) : z ∈ leavesB b ∨ z = y := by
   have key := star_mem (Q := fun e => ∀ z, e = Ev.op z → z ∈ leavesB b ∨ z = y) hst (by
     intro s hs e he z' hz'
@@ -954,7 +931,7 @@ theorem loop_mem (fx : Bool) (all : List Leaf) {b : Blk} {y : Leaf} {cxb : Ctx} 
     subst hz'
     simp only [List.mem_append, List.mem_singleton] at he
     rcases he with he | he | he
-    · left; exact run_mem _ _ _ _ _ _ _ hrs he
+    · left; exact run_mem _ _ _ _ _ _ _ _ hrs he
     · unfold ySync at he; split at he <;> simp at he
     · right; injection he)
   exact key _ hz z rfl
@@ -969,21 +946,18 @@ theorem nodup_cut_for {l y : Leaf} {b r : Blk} {ys : Bool} (h : (idsB (.forO l b
   refine List.Nodup.sublist ?_ h
   simp [idsB, leavesB]
 
-theorem dep_not_all {x u : Leaf} (hd : Dep x u) : x.cls ≠ Cls.all := by
-  rcases hd.1 with ⟨h, _⟩ | ⟨h, _⟩ <;> simp [h]
-
-theorem from_single (all : List Leaf) (x u : Leaf) (hd : Dep x u) (hu : u ∈ all) :
+theorem from_single (all : List Leaf) (rt : Nat → Nat) (x u : Leaf) (hd : Dep rt x u) (hu : u ∈ all) :
     ∀ (b : Blk) (cx : Ctx) (P : List Nat) (t a m c : List Ev),
-    (idsB b).Nodup → CompoundAll b → LoopOK x u b → Run (walkB true all cx b P).1 t →
+    (idsB b).Nodup → CompoundAll b → Run (walkB Fix.all all rt cx b P).1 t →
     t = a ++ Ev.op x :: (m ++ Ev.op u :: c) → Ev.sync ∈ m := by
   intro b
   induction b with
   | nil =>
-    intro cx P t a m c _ _ _ hr ht
+    intro cx P t a m c _ _ hr ht
     simp only [walkB, Run] at hr
     subst hr; simp at ht
   | leaf l r ih =>
-    intro cx P t a m c hnd hca hok hr ht
+    intro cx P t a m c hnd hca hr ht
     simp only [walkB] at hr
     obtain ⟨t', hr', rfl⟩ := run_withSync.mp hr
     simp only [Run] at hr'
@@ -991,34 +965,33 @@ theorem from_single (all : List Leaf) (x u : Leaf) (hd : Dep x u) (hu : u ∈ al
     obtain ⟨hnr, _⟩ := nodup_leaf hnd
     rcases head_cases ht with ⟨hxl, hm⟩ | ⟨a', ht'⟩
     · subst hxl
-      exact pending_sync all r cx _ _ _ _ u hnr hr'' hm.symm (visit_adds (dep_adds hd hu))
-    · exact ih _ _ _ _ _ _ hnr hca hok hr'' ht'
+      exact pending_sync all rt r cx _ _ _ _ u hnr hr'' hm.symm (visit_adds (dep_adds hd hu))
+    · exact ih _ _ _ _ _ _ hnr hca hr'' ht'
   | sync r ih =>
-    intro cx P t a m c hnd hca hok hr ht
+    intro cx P t a m c hnd hca hr ht
     simp only [walkB, Run] at hr
     obtain ⟨t', hr', rfl⟩ := hr
     obtain ⟨a', ht'⟩ := sync_strip ht
     rw [idsB_sync] at hnd
-    exact ih _ _ _ _ _ _ hnd hca hok hr' ht'
+    exact ih _ _ _ _ _ _ hnd hca hr' ht'
   | ifO l a0 e r iha ihe ihr =>
-    intro cx P t a m c hnd hca hok hr ht
+    intro cx P t a m c hnd hca hr ht
     simp only [walkB] at hr
     obtain ⟨t', hr', rfl⟩ := run_withSync.mp hr
     simp only [Run] at hr'
     obtain ⟨t1, t2, hbr, hr2, rfl⟩ := hr'
     simp only [CompoundAll] at hca
-    simp only [LoopOK] at hok
     obtain ⟨hna, hne, hnr, hda, hde, hdr, hla, hle, hlr⟩ := nodup_if hnd
     rcases head_cases ht with ⟨hxl, _⟩ | ⟨a', ht'⟩
     · exact absurd (hxl ▸ hca.1) (dep_not_all hd)
     · rcases append_split ht' with ⟨p2, _, h2⟩ | ⟨q, h1, h2⟩
-      · exact ihr _ _ _ _ _ _ hnr hca.2.2.2 hok.2.2 hr2 h2
+      · exact ihr _ _ _ _ _ _ hnr hca.2.2.2 hr2 h2
       · rcases append_split h2.symm with ⟨p2, rfl, h4⟩ | ⟨q'', h3, _⟩
         · -- x in a branch, u in the rest of the block
-          have hur : u ∈ leavesB r := run_mem _ _ _ _ _ _ _ hr2 (by rw [h4]; simp)
+          have hur : u ∈ leavesB r := run_mem _ _ _ _ _ _ _ _ hr2 (by rw [h4]; simp)
           have hid := hdr _ (id_mem_idsB hur)
-          have hrun1 : Run (walkB true all cx (.ifO l a0 e .nil) P).1
-              ((if (visit true all cx l P).1 then [Ev.sync] else []) ++ Ev.op l :: (t1 ++ [])) := by
+          have hrun1 : Run (walkB Fix.all all rt cx (.ifO l a0 e .nil) P).1
+              ((if (visit Fix.all all rt cx l P).1 then [Ev.sync] else []) ++ Ev.op l :: (t1 ++ [])) := by
             simp only [walkB]
             exact run_withSync.mpr ⟨_, by simp only [Run]; exact ⟨t1, [], hbr, rfl, rfl⟩, rfl⟩
           have hz : u.id ∉ idsB (.ifO l a0 e .nil) := by
@@ -1026,37 +999,36 @@ theorem from_single (all : List Leaf) (x u : Leaf) (hd : Dep x u) (hu : u ∈ al
             simp only [List.mem_cons, List.mem_append, not_or, idsB, leavesB, List.map_nil, List.not_mem_nil,
               not_false_eq_true, and_true]
             exact ⟨fun h' => hlr (h' ▸ id_mem_idsB hur), hid.1, hid.2⟩
-          have key := dep_keep_or_sync all x u.id (.ifO l a0 e .nil) cx P _
-            ((if (visit true all cx l P).1 then [Ev.sync] else []) ++ Ev.op l :: a') (q ++ [])
+          have key := dep_keep_or_sync all rt x u.id (.ifO l a0 e .nil) cx P _
+            ((if (visit Fix.all all rt cx l P).1 then [Ev.sync] else []) ++ Ev.op l :: a') (q ++ [])
             (fun cx' _ => dep_adds hd hu) hrun1 (by rw [h1]; simp) hz
           simp only [walkB] at key
           rcases key with k | k
-          · exact List.mem_append_right _ (pending_sync all r cx _ _ _ _ u hnr hr2 h4 k)
+          · exact List.mem_append_right _ (pending_sync all rt r cx _ _ _ _ u hnr hr2 h4 k)
           · exact List.mem_append_left _ (by simpa using k)
         · rw [h3] at h1
           rcases hbr with hb | hb
-          · exact iha _ _ _ _ _ _ hna hca.2.1 hok.1 hb h1
-          · exact ihe _ _ _ _ _ _ hne hca.2.2.1 hok.2.1 hb h1
+          · exact iha _ _ _ _ _ _ hna hca.2.1 hb h1
+          · exact ihe _ _ _ _ _ _ hne hca.2.2.1 hb h1
   | forO l b ys y r ihb ihr =>
-    intro cx P t a m c hnd hca hok hr ht
+    intro cx P t a m c hnd hca hr ht
     simp only [walkB] at hr
     obtain ⟨t', hr', rfl⟩ := run_withSync.mp hr
     simp only [Run] at hr'
     obtain ⟨t1, t2, hst, hr2, rfl⟩ := hr'
     simp only [CompoundAll] at hca
-    simp only [LoopOK] at hok
     obtain ⟨hnb, hnr, hdb, hdr, hlb, hly, hlr⟩ := nodup_for hnd
     have hyb : y.id ∉ idsB b := fun h' => (hdb _ h').1 rfl
     rcases head_cases ht with ⟨hxl, _⟩ | ⟨a', ht'⟩
     · exact absurd (hxl ▸ hca.1) (dep_not_all hd)
     · rcases append_split ht' with ⟨p2, _, h2⟩ | ⟨q, h1, h2⟩
-      · exact ihr _ _ _ _ _ _ hnr hca.2.2.2 hok.2.2 hr2 h2
+      · exact ihr _ _ _ _ _ _ hnr hca.2.2.2 hr2 h2
       · rcases append_split h2.symm with ⟨p2, rfl, h4⟩ | ⟨q'', h3, _⟩
         · -- x inside the loop, u after the loop
-          have hur : u ∈ leavesB r := run_mem _ _ _ _ _ _ _ hr2 (by rw [h4]; simp)
+          have hur : u ∈ leavesB r := run_mem _ _ _ _ _ _ _ _ hr2 (by rw [h4]; simp)
           have hid := hdr _ (id_mem_idsB hur)
-          have hrun1 : Run (walkB true all cx (.forO l b ys y .nil) P).1
-              ((if (visit true all cx l P).1 then [Ev.sync] else []) ++ Ev.op l :: (t1 ++ [])) := by
+          have hrun1 : Run (walkB Fix.all all rt cx (.forO l b ys y .nil) P).1
+              ((if (visit Fix.all all rt cx l P).1 then [Ev.sync] else []) ++ Ev.op l :: (t1 ++ [])) := by
             simp only [walkB]
             exact run_withSync.mpr ⟨_, by simp only [Run]; exact ⟨t1, [], hst, rfl, rfl⟩, rfl⟩
           have hz : u.id ∉ idsB (.forO l b ys y .nil) := by
@@ -1064,12 +1036,12 @@ theorem from_single (all : List Leaf) (x u : Leaf) (hd : Dep x u) (hu : u ∈ al
             simp only [List.mem_cons, List.mem_append, not_or, idsB, leavesB, List.map_nil, List.not_mem_nil,
               or_false]
             exact ⟨fun h' => hlr (h' ▸ id_mem_idsB hur), hid.2, hid.1⟩
-          have key := dep_keep_or_sync all x u.id (.forO l b ys y .nil) cx P _
-            ((if (visit true all cx l P).1 then [Ev.sync] else []) ++ Ev.op l :: a') (q ++ [])
+          have key := dep_keep_or_sync all rt x u.id (.forO l b ys y .nil) cx P _
+            ((if (visit Fix.all all rt cx l P).1 then [Ev.sync] else []) ++ Ev.op l :: a') (q ++ [])
             (fun cx' _ => dep_adds hd hu) hrun1 (by rw [h1]; simp) hz
           simp only [walkB] at key
           rcases key with k | k
-          · exact List.mem_append_right _ (pending_sync all r cx _ _ _ _ u hnr hr2 h4 k)
+          · exact List.mem_append_right _ (pending_sync all rt r cx _ _ _ _ u hnr hr2 h4 k)
           · exact List.mem_append_left _ (by simpa using k)
         · rw [h3] at h1
           rcases star_pair hst _ _ _ _ _ h1 with ⟨s, a1, c1, hs, hs1⟩ | ⟨s, a1, m1, m2, hs, hs1, rfl⟩
@@ -1081,13 +1053,13 @@ theorem from_single (all : List Leaf) (x u : Leaf) (hd : Dep x u) (hu : u ∈ al
             · rcases append_split h6.symm with ⟨p3, rfl, h7⟩ | ⟨q3, h7, _⟩
               · -- u is the terminator
                 obtain ⟨huy, _, hp3⟩ := tail_y_cases h7
-                have key := dep_keep_or_sync all x y.id b (bodyCtx b y) _ _ _ _
+                have key := dep_keep_or_sync all rt x y.id b (bodyCtx cx b y) _ _ _ _
                   (fun cx' _ => huy ▸ dep_adds hd hu) hrs h5 hyb
                 rcases key with k | k
                 · apply List.mem_append_right
-                  have hys : (ys || (visit true all (bodyCtx b y) y (if ys then discharge true (bodyCtx b y).scope
-                      (walkB true all (bodyCtx b y) b (visit true all cx l P).2).2
-                      else (walkB true all (bodyCtx b y) b (visit true all cx l P).2).2)).1) = true := by
+                  have hys : (ys || (visit Fix.all all rt (bodyCtx cx b y) y (if ys then discharge Fix.all (bodyCtx cx b y).scope
+                      (walkB Fix.all all rt (bodyCtx cx b y) b (visit Fix.all all rt cx l P).2).2
+                      else (walkB Fix.all all rt (bodyCtx cx b y) b (visit Fix.all all rt cx l P).2).2)).1) = true := by
                     cases ys with
                     | true => rfl
                     | false =>
@@ -1096,21 +1068,27 @@ theorem from_single (all : List Leaf) (x u : Leaf) (hd : Dep x u) (hu : u ∈ al
                   rw [hp3, hys]; simp [ySync]
                 · exact List.mem_append_left _ k
               · rw [h7] at h5
-                exact ihb _ _ _ _ _ _ hnb hca.2.2.1 hok.2.1 hrs h5
+                exact ihb _ _ _ _ _ _ hnb hca.2.2.1 hrs h5
           · -- u in a later iteration: the back edge
             apply List.mem_append_left
             have hxm : x ∈ leavesB b ∨ x = y :=
-              loop_mem true all (Star.cons hs Star.nil) (by rw [hs1]; simp)
-            have hum : u ∈ leavesB b ∨ u = y := loop_mem true all hst (by rw [h1]; simp)
-            have hsib := hok.1 hxm hum
-            have hrun1 : Run (walkB true all cx (.forO l b ys y .nil) P).1
-                ((if (visit true all cx l P).1 then [Ev.sync] else []) ++ Ev.op l :: ((s ++ []) ++ [])) := by
+              loop_mem Fix.all all rt (Star.cons hs Star.nil) (by rw [hs1]; simp)
+            have hum : u ∈ leavesB b ∨ u = y := loop_mem Fix.all all rt hst (by rw [h1]; simp)
+            have hsib : InLoop x u (.forO l b ys y .nil) := by
+              simp only [InLoop]
+              refine Or.inl ⟨hxm, ?_⟩
+              rcases hum with h | h
+              · exact List.mem_append_left _ (id_mem_idsB h)
+              · rw [h]; simp
+            have hrun1 : Run (walkB Fix.all all rt cx (.forO l b ys y .nil) P).1
+                ((if (visit Fix.all all rt cx l P).1 then [Ev.sync] else []) ++ Ev.op l :: ((s ++ []) ++ [])) := by
               simp only [walkB]
               exact run_withSync.mpr ⟨_, by
                 simp only [Run]; exact ⟨s ++ [], [], Star.cons hs Star.nil, rfl, rfl⟩, rfl⟩
-            have key := sib_sync all x u hd hu (.forO l b ys y .nil) cx P _
-              ((if (visit true all cx l P).1 then [Ev.sync] else []) ++ Ev.op l :: a1) (m1 ++ [] ++ [])
-              (nodup_cut_for hnd) hrun1 (by rw [hs1]; simp) hsib
+            have key := inloop_sync all rt x u hd hu (.forO l b ys y .nil) cx P _
+              ((if (visit Fix.all all rt cx l P).1 then [Ev.sync] else []) ++ Ev.op l :: a1) (m1 ++ [] ++ [])
+              (nodup_cut_for hnd) (by simp only [CompoundAll]; exact ⟨hca.1, hca.2.1, hca.2.2.1, trivial⟩)
+              hrun1 (by rw [hs1]; simp) hsib
             simpa using key
 
 
@@ -1144,15 +1122,6 @@ def StraightLine : Blk → Prop
   | .sync r => StraightLine r
   | .ifO _ _ _ _ => False
   | .forO _ _ _ _ _ => False
-
-theorem straight_loopOK (x u : Leaf) : ∀ b, StraightLine b → LoopOK x u b := by
-  intro b
-  induction b with
-  | nil => intro _; trivial
-  | leaf l r ih => intro h; exact ih h
-  | sync r ih => intro h; exact ih h
-  | ifO => intro h; exact h.elim
-  | forO => intro h; exact h.elim
 
 theorem straight_compoundAll : ∀ b, StraightLine b → CompoundAll b := by
   intro b
@@ -1284,8 +1253,8 @@ theorem compoundKept_withSync {h : Bool} {b : Blk} (hk : CompoundKept b) : Compo
   · simpa [withSync] using hk
   · simpa [withSync, CompoundKept] using hk
 
-theorem walk_compoundKept (fx : Bool) (all : List Leaf) : ∀ (b : Blk) (cx : Ctx) (P : List Nat),
-    CompoundKept b → CompoundKept (walkB fx all cx b P).1 := by
+theorem walk_compoundKept (fx : Fix) (all : List Leaf) (rt : Nat → Nat) : ∀ (b : Blk) (cx : Ctx) (P : List Nat),
+    CompoundKept b → CompoundKept (walkB fx all rt cx b P).1 := by
   intro b
   induction b with
   | nil => intro cx P h; simpa [walkB] using h
